@@ -22,7 +22,8 @@ Modelling conventions
   behind `buffer_size` are never read by the code (`buffer()` is the only reader);
 * the underlying reader is `Reader`: the bytes still to be delivered and a schedule, one entry per `read`
   call: `0` = the call fails with `ErrorKind::Interrupted`, `m+1` = the call delivers at most `m+1`
-  bytes; when the schedule is used up the reader delivers as much as is asked for.
+  bytes; when the schedule is used up every call delivers at most `tail` bytes (`tail = 0`: as much as is
+  asked for) — so "one byte per call, for ever" is `sched = [], tail = 1`.
 
 The specification `rfcEncode` (RFC 4648 §4, written independently of the code: bit groups as numbers,
 alphabet by ranges) is at the end, before the line protocol.
@@ -158,6 +159,8 @@ def encodeChunks (chunks : List (List UInt8)) : EncRes (List UInt8) :=
 structure Reader where
   data : List UInt8
   sched : List Nat
+  /-- per-call maximum once the schedule is used up; `0` = no restriction -/
+  tail : Nat
 deriving Repr, DecidableEq
 
 inductive RdRes where
@@ -168,9 +171,12 @@ deriving Repr, DecidableEq
 /-- one `read(&mut buf[..want])` call on the underlying reader -/
 def Reader.read (r : Reader) (want : Nat) : RdRes × Reader :=
   match r.sched with
-  | [] => (.bytes (r.data.take want), { r with data := r.data.drop want })
+  | [] =>
+    let k := if r.tail = 0 then want else min want r.tail
+    (.bytes (r.data.take k), { r with data := r.data.drop k })
   | 0 :: s => (.interrupted, { r with sched := s })
-  | (m + 1) :: s => (.bytes (r.data.take (min want (m + 1))), { data := r.data.drop (min want (m + 1)), sched := s })
+  | (m + 1) :: s =>
+    (.bytes (r.data.take (min want (m + 1))), { r with data := r.data.drop (min want (m + 1)), sched := s })
 
 theorem Reader.read_sched_le (r : Reader) (want : Nat) : (r.read want).2.sched.length ≤ r.sched.length := by
   unfold Reader.read; split <;> simp_all
@@ -365,8 +371,8 @@ def showOutcome : Outcome → String
 
 /--
 * `enc <chunk>…`                 model of new / write(chunk)… / finish   → `ok <hex>` | `panic`
-* `dec <text> <sched> <sizes>`   model of one `read` per size              → trace joined by `,`
-* `all <text> <sched> <sizes>`   `readAll`                                  → `eof <hex>` | `error <hex>` | …
+* `dec <text> <sched> <tail> <sizes>`   model of one `read` per size       → trace joined by `,`
+* `all <text> <sched> <tail> <sizes>`   `readAll`                           → `eof <hex>` | `error <hex>` | …
 * `spec <data>`                  `rfcEncode`                                → `<hex>`
 -/
 def handle : List String → String
@@ -374,16 +380,16 @@ def handle : List String → String
     match chunks.mapM unhex with
     | some cs => showEnc (encodeChunks cs)
     | none => "bad-op"
-  | ["dec", t, s, z] =>
-    match unhex t, natList? s, natList? z with
-    | some t, some s, some z =>
-      let tr := reads (Dec.new ⟨t, s⟩) z
+  | ["dec", t, s, tl, z] =>
+    match unhex t, natList? s, tl.toNat?, natList? z with
+    | some t, some s, some tl, some z =>
+      let tr := reads (Dec.new ⟨t, s, tl⟩) z
       if tr.isEmpty then "-" else ",".intercalate tr
-    | _, _, _ => "bad-op"
-  | ["all", t, s, z] =>
-    match unhex t, natList? s, natList? z with
-    | some t, some s, some z => showOutcome (readAll (Dec.new ⟨t, s⟩) z)
-    | _, _, _ => "bad-op"
+    | _, _, _, _ => "bad-op"
+  | ["all", t, s, tl, z] =>
+    match unhex t, natList? s, tl.toNat?, natList? z with
+    | some t, some s, some tl, some z => showOutcome (readAll (Dec.new ⟨t, s, tl⟩) z)
+    | _, _, _, _ => "bad-op"
   | ["spec", d] =>
     match unhex d with
     | some d => hex (rfcEncode d)
